@@ -476,6 +476,19 @@ def finish(pid, mod, tier, seed, results, t0, th, mir_s, tasks, timed_out=False)
             for line in ex.get('violations', []):
                 lines.append(line)
                 status = 1
+            # recorded findings that a concrete history (not a solver counterexample) still shows
+            for kid, rr in ex.get('known_seen', []):
+                kf = [k for k in known if k['id'] == kid]
+                if kf:
+                    lines.append('KNOWN-FINDING: property=%s %s [%s]' % (pid, kf[0]['what'], kid))
+                    known_seen.setdefault(kid, ({'obligation': 'extra', 'inputs': {}, 'known': kid, 'kind': 'property'}, rr))
+                else:
+                    path = os.path.join(EVID, 'replay', '%s-extra-%s.json' % (pid, kid))
+                    os.makedirs(os.path.dirname(path), exist_ok=True)
+                    with open(path, 'w') as f:
+                        json.dump({'finding': kid, 'native': rr}, f, indent=1)
+                    lines.append('VIOLATION property=%s replay=%s' % (pid, path))
+                    status = 1
         except Exception as e:
             inconclusive.append('extra checks failed: %s: %s' % (type(e).__name__, e))
     if inconclusive and status == 0:
